@@ -398,6 +398,38 @@ def _prov(ctx, p, r_prov):
                             ok=ok, site=b.loc(bi))
                 if not ok:
                     r_prov.violations.append(Violation('C01', 'C01.prov', b.path, 'push', why, loc=b.loc(bi), ordinal=n))
+        # every other way an element can enter a Vec<S>: extend / append / insert / resize / .. and `v[i] = x`
+        for bi, t in b.calls():
+            path = t['func'].get('path') or ''
+            name = path.rsplit('::', 1)[-1]
+            if not user_call(b, bi) or path == VEC_PUSH or name not in ELEMENT_ADDERS or not t['args']:
+                continue
+            pl = t['args'][0].get('move') or t['args'][0].get('copy')
+            ty = b.local_ty(pl['l']) if pl is not None else ''
+            if not ('std::vec::Vec<S>' in ty or 'VecDeque<S>' in ty or ty.lstrip('&mut ').strip() == '[S]'):
+                continue
+            n += 1
+            src = fn.arg_terms(t, ELEMENT_ADDERS[name], bi) if ELEMENT_ADDERS[name] < len(t['args']) else frozenset()
+            ok, why = _elements_origin_ok(ctx, p, b, fn, src, param_obls)
+            r_prov.inst('%s: elements added by %s at %s have origin %s' % (b.path, name, b.loc(bi), fmt_terms(strip_clone(src))[:70]),
+                        ok=ok, site=b.loc(bi))
+            if not ok:
+                r_prov.violations.append(Violation('C01', 'C01.prov', b.path, 'add:' + name, why, loc=b.loc(bi), ordinal=n))
+        for bi, blk in enumerate(b.blocks):
+            if blk['cleanup']:
+                continue
+            for si, st in enumerate(blk['stmts']):
+                if st['k'] != 'assign' or not st['place']['p'] or b.local_ty(st['place']['l']).find('Vec<S>') < 0:
+                    continue
+                if not any(isinstance(e, dict) and ('idx' in e or 'cidx' in e) for e in st['place']['p']):
+                    continue
+                n += 1
+                x = fn.rvalue_terms(st['rv'], (bi, si))
+                ok, why = _state_origin_ok(ctx, p, b, x, param_obls)
+                r_prov.inst('%s: path element overwritten at %s with origin %s' % (b.path, b.loc(bi, si), fmt_terms(strip_clone(x))[:70]),
+                            ok=ok, site=b.loc(bi, si))
+                if not ok:
+                    r_prov.violations.append(Violation('C01', 'C01.prov', b.path, 'store', why, loc=b.loc(bi, si), ordinal=n))
         # array literals of S (vec![start.clone()])
         for bi, blk in enumerate(b.blocks):
             if blk['cleanup']:
@@ -428,6 +460,54 @@ def _prov(ctx, p, r_prov):
                                                            loc=b.loc(bi)))
     if n < 1:
         r_prov.violations.append(Violation('C01', 'C01.prov', p['adt'], 'floor', 'no path element site found in planner %s' % p['name']))
+
+
+# methods through which elements enter a Vec<S> / VecDeque<S> -> index of the argument that carries them
+ELEMENT_ADDERS = {'extend': 1, 'extend_from_slice': 1, 'append': 1, 'insert': 2, 'resize': 2, 'resize_with': 2, 'push_front': 1,
+                  'push_back': 1, 'splice': 2, 'fill': 1, 'extend_from_within': 1, 'push_within_capacity': 1}
+_SEQ_ADAPTORS = ('skip', 'rev', 'take', 'cloned', 'copied', 'into_iter', 'iter', 'drain', 'skip_while', 'take_while', 'step_by',
+                 'by_ref', 'peekable', 'fuse')
+
+
+def _elements_origin_ok(ctx, p, b, fn, src, param_obls, depth=0):
+    """src: the iterator / collection / value whose elements are added to a path vector.  Accepted: the states of another
+    extracted path (`<extractor>(..).0`, possibly skipped / reversed), a Vec<S> built in this planner (its own pushes are
+    checked), an Option / value whose payload is an accepted state origin"""
+    if not src or depth > 4:
+        return False, 'elements of unknown origin are added to the returned path'
+    for n in strip_clone(src):
+        if n[0] == 'call' and n[1].rsplit('::', 1)[-1] in _SEQ_ADAPTORS and n[2]:
+            ok, why = _elements_origin_ok(ctx, p, b, fn, n[2][0], param_obls, depth + 1)
+            if not ok:
+                return ok, why
+            continue
+        if n[0] == 'out' and len(n) > 3 and n[3]:
+            # the collection after an in-place operation (reverse, sort, truncate): same elements
+            if n[1].rsplit('::', 1)[-1] in ('reverse', 'truncate', 'pop', 'remove', 'swap', 'dedup', 'retain', 'clear', 'deref_mut', 'as_mut_slice',
+                                             'rotate_left', 'rotate_right', 'sort_by', 'sort_unstable_by') or n[1] == VEC_PUSH or \
+                    n[1].rsplit('::', 1)[-1] in ELEMENT_ADDERS:
+                ok, why = _elements_origin_ok(ctx, p, b, fn, n[3][0], param_obls, depth + 1)
+                if not ok:
+                    return ok, why
+                continue
+        if n[0] == 'field' and n[2] == '0' and n[1] and all(
+                m[0] == 'call' and ctx.core.body(m[1]) is not None and (ctx.core.body(m[1]).j.get('ret_ty') or '').startswith('base::planner::Path<')
+                for m in n[1]):
+            continue                        # the states of a path built by a path extractor of this crate
+        if n[0] == 'call' and n[1] in ('std::vec::Vec::<T>::new', 'std::vec::Vec::<T>::with_capacity'):
+            continue                        # a vector built here: what is pushed into it is checked at the pushes
+        if n[0] == 'agg' and n[2] == 'None':
+            continue
+        if n[0] == 'agg' and n[2] == 'Some' and n[3]:
+            ok, why = _state_origin_ok(ctx, p, b, n[3][0][1], param_obls)
+            if not ok:
+                return ok, why
+            continue
+        ok, why = _state_origin_ok(ctx, p, b, T(n), param_obls)
+        if not ok:
+            return False, 'elements with origin %s (not the states of an extracted path, not node / start states) are added to the ' \
+                          'returned path' % fmt_terms(T(n))[:100]
+    return True, ''
 
 
 def _state_origin_ok(ctx, p, b, x, param_obls):
